@@ -596,10 +596,14 @@ def family(prop, t, sd):
         items += gen.m1_family(0)
         for s in (11, 12, 13):
             items += gen.seeded_models(s, 700, maxd=3)
+        # constants spelled as compound constant expressions ((5 - 1), (2 * 3), -(2)): the compiler substitutes named
+        # constants without folding them, so such shapes reach flatten / simplify / the lowering as they are
+        items += [m for m in gen.seeded_models(14, 900, maxd=3, text_mode=True) if "'avg'" not in str(m['model'])]
     else:
         items += gen.m1_family(1)
         for k in range(10):
             items += gen.seeded_models(1000 * sd + k, 5000, maxd=4 if k % 2 else 3)
+        items += [m for m in gen.seeded_models(1000 * sd + 77, 9000, maxd=3, text_mode=True) if "'avg'" not in str(m['model'])]
     if prop == 'C07':
         # float-noise constants and contradictory / chained rows
         g = gen.RandGen(77 + (sd if t == 'thorough' else 0), consts=gen.CONST + [1.9, 0.1, 1 / 3, -0.7, 2.4], muls=gen.MULS + [1.9, 3, -0.3, 0.1], divs=gen.DIVS + [3, 1.9, -0.7])
